@@ -15,7 +15,8 @@ func init() {
 		run:   runC20,
 		decided: "each named limit exists, sits before the unbounded step on every path, has the stated magnitude and yields an ordinary error: the call-depth test (new depth = parent depth + 1, compared with a never-written constant between 1001 and 65536) precedes the push in the only function that pushes frames, and every user call and match body goes through it, its error wrapped as a runtime error; the array fill is preceded by `resolved index > limit -> error` on the index itself (limit between 1,000,000 and 2^21); the printf width is bounded by 65536 in both directions before it is used; a decoder failure (including its nesting limit) becomes a JSON error; no other allocation in the interpreter has a size that is not the length of an existing value or a constant." +
 			" Frames are balanced, so only nested calls count towards the limit; the value the fill limit is applied to is the resolved index the fill loop runs to." +
-			" ++ and -- return the assignment's error.",
+			" ++ and -- return the assignment's error." +
+			" No call changes the Go runtime's resource ceilings.",
 		notDecided: "that everything below the limits fits in memory / stack (resource behaviour); the decoder's own nesting limit (encoding/json, cited).",
 	})
 }
